@@ -121,7 +121,8 @@ def run(ctx, col: Collector):
     # ---------------------------------------------------------------- C04-once
     def once():
         from .common import select_filter
-        rd = idx.func('pydbml.renderer.sql.default.renderer', 'DefaultSQLRenderer.render_db')
+        from .common import expanded
+        rd = expanded(ctx, 'pydbml.renderer.sql.default.renderer', 'DefaultSQLRenderer.render_db', keep_extra=('render', 'reorder_tables_for_sql'))
         dbp = [a.arg for a in rd.node.args.args][1]
         st, f = select_filter(rd.node, f'{dbp}.refs', [('not', ('truthy', 'VAR.inline'))])
         (col.ok if st == 'ok' else col.bad if st == 'bad' else col.unk)(
